@@ -88,6 +88,7 @@ Theorem c20_resume_has_checkpoint :
     (forall n s s' l, sinv n s -> removables sch s = (s', l) ->
        sinv n s' /\ incl (needed s') (needed s) /\
        forall i, In i l -> ~ In i (needed s') /\ (0 <= i < n)%Z) ->
+    (forall n s i, sinv n s -> sinv n (on_error sch s i) /\ incl (needed (on_error sch s i)) (needed s)) ->
   forall s0 its pre i post, sinv 0%Z s0 ->
     run sch c (init s0) its = pre ++ EResume i :: post ->
     forall w, ~ In (EDelete i w) pre.
@@ -125,14 +126,14 @@ Print Assumptions c20_sync_removable_not_promoted_partial.
 Example c20_example_promo :
   let c := {| delete_checkpoints := true; remove_callback := false; speculative := false |} in
   run promo_sched c (init promo0)
-      [ {| reports := []; completed := []; sugg := [None; None]; spec_choice := [] |};
-        {| reports := [(0%Z, PAUSE); (1%Z, STOP)]; completed := []; sugg := [Some 0%Z]; spec_choice := [] |} ]
+      [ {| reports := []; completed := []; failed := []; sugg := [None; None]; spec_choice := [] |};
+        {| reports := [(0%Z, PAUSE); (1%Z, STOP)]; completed := []; failed := []; sugg := [Some 0%Z]; spec_choice := [] |} ]
   = [EStart 0 None; EStart 1 None; EDecision 0 PAUSE; EPause 0; EDecision 1 STOP; EStop 1; EDelete 1 WStop;
      EResume 0; EStopAll; EStop 0; EDelete 0 WStopAll; EDelete 0 WStopAll; EDelete 1 WStopAll].
 Proof. vm_compute. reflexivity. Qed.
 
 Example c20_example_sync :
-  let b := {| b_cur := [(Some 0%Z, Some (3 # 1)%Q); (Some 1%Z, Some (1 # 1)%Q); (Some 2%Z, None)];
+  let b := {| b_cur := [(Some 0%Z, Some (Some (3 # 1)%Q)); (Some 1%Z, Some (Some (1 # 1)%Q)); (Some 2%Z, None)];
               b_level := 1; b_free := 3; b_later := [(1%nat, 3%Z)]; b_done := false |} in
-  snd (bracket_on_result false b 2 2%Z (2 # 1)%Q) = Some [0%Z; 2%Z].
+  snd (bracket_on_result false b 2 2%Z (Some (2 # 1)%Q)) = Some [0%Z; 2%Z].
 Proof. vm_compute. reflexivity. Qed.
